@@ -34,6 +34,8 @@ def styles(lang):
         out.append("/** doc note */")
         out.append("/** nocl is only a word here */")  # not the marker: the leader is /*, the text starts with *
         out.append("/// nocl as a word")
+        out.append("// see @endcode, @end and [values count]")            # text that looks like another language
+        out.append("/* mail dev1@163.com @\"x\" @protocol [self init] */")
     else:
         out.append(d["line"] + "note-without-space")
         out.append(d["line"] * 2 + " nocl as a word")    # "## nocl ..": after the leader # comes another #
